@@ -435,6 +435,12 @@ func fileSeek(L *LState) int {
 	var pos int64
 	var err error
 
+	// bytes still in a write buffer belong at the position they were written at
+	if bwriter, ok := file.writer.(*bufio.Writer); ok {
+		if err = bwriter.Flush(); err != nil {
+			goto errreturn
+		}
+	}
 	err = file.AbandonReadBuffer()
 	if err != nil {
 		goto errreturn
